@@ -599,10 +599,29 @@ def _plane_contract(meth):
 
 c, st = _plane_contract("remove")
 st.result_fn = ("cells", lambda self: list(self._wired_cells))
-c.wire = (lambda w: lambda bound, ghosts: (w(bound, ghosts), bound["self"].f.__setitem__("_wired_cells", ghosts["_cells"])))(c.wire)
+
+
+def _wire_remove(w):
+    def wire(bound, ghosts):
+        w(bound, ghosts)
+        s_ = bound["self"]
+        s_.f["_wired_cells"] = ghosts["_cells"]
+        # a longer history: two more live members and entries of objects removed earlier (remove leaves them in _seq; iteration filters by membership)
+        later = SObj(lay.LTTextBoxHorizontal, {}, "later")
+        stale = [SObj(lay.LTTextBoxHorizontal, {}, "stale%d" % k) for k in range(3)]
+        s_.f["_seq"] = [stale[0], ghosts["_other"], stale[1], bound["obj"], stale[2], later]
+        s_.f["_objs"] = {ghosts["_other"], bound["obj"], later}
+        s_.f["_grid"][(0, 1)].append(later)
+        ghosts["_later"] = later
+    return wire
+
+
+c.wire = _wire_remove(c.wire)
 c.mod("self._wired_cells")
+c.ens("remaining-members-are-still-walked-in-insertion-order", lambda self, _other, _later: (
+    [o.name for o in self._seq if any(o is m for m in self._objs)] == ["other", "later"]))
 c.ens("object-leaves-the-membership-set-and-its-cells-others-stay", lambda self, obj, _other, _cells, trace: And(
-    not any(o is obj for o in self._objs), any(o is _other for o in self._objs), len(self._objs) == 1,
+    not any(o is obj for o in self._objs), any(o is _other for o in self._objs), len(self._objs) == 2,
     all(not any(o is obj for o in v) and any(o is _other for o in v) for v in self._grid.values()),
     len(trace) == 1 and eq(trace[0][1]["bbox"], box_of(obj))))
 
